@@ -433,6 +433,23 @@ impl<'tcx> Cx<'tcx> {
         }
         o.push(("locals", J::A(locals)));
         o.push(("upvars", J::A(upvars)));
+        // promoted constants of this body (`&ReactorMode::Persistent` in `*self == ReactorMode::Persistent`): the
+        // statements of each promoted body, printed, so that a rule can read which value a `promoted[i]` operand stands for
+        {
+            let mut proms = Vec::new();
+            for pbody in tcx.promoted_mir(did).iter() {
+                let mut sts = Vec::new();
+                for data in pbody.basic_blocks.iter() {
+                    for st in &data.statements {
+                        if let StatementKind::Assign(_) = &st.kind {
+                            sts.push(s(nt!(format!("{:?}", st))));
+                        }
+                    }
+                }
+                proms.push(J::A(sts));
+            }
+            o.push(("promoted", J::A(proms)));
+        }
         // blocks
         let mut blocks = Vec::new();
         for (_bb, data) in body.basic_blocks.iter_enumerated() {
